@@ -74,6 +74,9 @@ func (m *manualCollector) Close() error {
 // handler: when armed, the next event is held (it is "in flight": the agent has already taken the
 // transaction out of its table and released its lock) until the harness releases it.
 type gateAgent struct {
+	pairOn      atomic.Bool
+	pairID      atomic.Int64
+	pairArrived atomic.Int32
 	*stun.Agent
 	armed       atomic.Bool
 	inflight    chan struct{}
@@ -98,6 +101,12 @@ func (g *gateAgent) Start(id [stun.TransactionIDSize]byte, deadline time.Time) e
 
 func (g *gateAgent) SetHandler(h stun.Handler) error {
 	return g.Agent.SetHandler(func(e stun.Event) {
+		if g.pairOn.Load() && agentIDOf(e.TransactionID) == int(g.pairID.Load()) {
+			// line two events for one transaction up at the entry of the client's handler (bounded)
+			g.pairArrived.Add(1)
+			for i := 0; i < 20000 && g.pairArrived.Load() < 2; i++ {
+			}
+		}
 		if g.armed.CompareAndSwap(true, false) {
 			g.inflight <- struct{}{}
 			select {
@@ -2024,11 +2033,14 @@ func moreClientScenarios(o *out, r *rng) {
 	// (4d) the response and the final timeout of one transaction released at the same instant (reader and
 	// collector goroutines): the handler runs once, and afterwards 640 fresh transactions each get their own event
 	{
-		e := mk(false, stun.WithNoRetransmit)
+		e := mk(true, stun.WithNoRetransmit)
 		if e != nil {
-			for round := 0; round < 300; round++ {
+			for round := 0; round < 3000; round++ {
 				id := 10000 + round
 				_ = startTID(e, id, clientTID(id), 20)
+				e.gate.pairID.Store(int64(id))
+				e.gate.pairArrived.Store(0)
+				e.gate.pairOn.Store(true)
 				now := agentBase.Add(time.Duration(200 * (round + 1)))
 				start := make(chan struct{})
 				var wg sync.WaitGroup
@@ -2052,7 +2064,7 @@ func moreClientScenarios(o *out, r *rng) {
 			e.mu.Lock()
 			for k := 0; k < 640; k++ {
 				if got := e.invoked[20000+k]; len(got) != 1 || got[0] != 20000+k {
-					d := fmt.Sprintf("x after 300 rounds of a response racing the final timeout, a transaction's handler saw events for %v (its ID is %d)", got, 20000+k)
+					d := fmt.Sprintf("x after 3000 rounds of a response racing the final timeout, a transaction's handler saw events for %v (its ID is %d)", got, 20000+k)
 					o.failFor("C10", "handler-not-invoked-exactly-once", d)
 					o.failFor("C12", "event-delivered-to-another-transaction", d)
 					break
